@@ -220,6 +220,115 @@ def correspondence(ctx):
         'samples': descs[:2] + descs[-2:],
         'disagreements': len(fails),
     })
+    ctx.coverage['geometry_kernel_unit_variants'] = geometry_equivariance(ctx, rng)
+
+
+# ---- geometry kernels (beamline.py): the equivariance statement evaluated on the implementation.  Their model-side
+# theorems are C07/PropertiesBeamline.v (on this run's GenBeamline); their value correspondence is C03/C04's.
+BL = 'scippneutron.conversion.beamline:'
+LEN_U = [('m', 1.0), ('mm', 1e-3), ('cm', 1e-2), ('km', 1e3)]
+WL_U = [('angstrom', 1e-10), ('nm', 1e-9), ('m', 1.0), ('mm', 1e-3), ('um', 1e-6)]
+G_U = [('m/s^2', 1.0), ('mm/s^2', 1e-3), ('cm/s^2', 1e-2), ('m/ms^2', 1e6)]
+
+
+def _vec(si, unit, dim=None):
+    rows = si if isinstance(si[0], (list, tuple)) else [si]
+    return {'values': [[float(c / unit[1]).hex() for c in row] for row in rows], 'unit': unit[0], 'dtype': 'vector3', 'dim': dim}
+
+
+def geometry_groups(rng, n_per_kernel):
+    """unit variants (same physical operands) of the geometry kernels; every kernel gets the all-SI variant
+    (wavelength in m, beams in m, gravity in m/s^2: every internal conversion is a no-op) and random ones"""
+    import math
+    groups = []
+    tilt = rng.choice([0.0, 0.0, 1e-3, 0.3])
+    b1 = [0.0, math.sin(tilt), math.cos(tilt)]        # unit incident beam, tilted out of the horizontal by tilt
+    b1 = [c * 7.5 for c in b1]
+    b2s = [[0.3, 0.4, 2.0], [-0.5, 0.25, 1.5], [0.1, -0.6, 0.8]]
+    g = [0.0, -9.80665, 0.0]
+    wls = [1.8e-10, 6.0e-10, 25e-10]
+    src, smp = [0.0, 0.0, -7.5], [0.0, 0.0, 0.0]
+    poss = [[0.3, 0.4, 2.0], [-0.5, 0.25, 1.5], [0.1, -0.6, 0.8]]
+
+    def variants(kname, build):
+        combos = [(LEN_U[0], WL_U[2], G_U[0], 'float64'), (LEN_U[1], WL_U[3], G_U[1], 'float64')]
+        while len(combos) < n_per_kernel:
+            combos.append((rng.choice(LEN_U), rng.choice(WL_U), rng.choice(G_U), rng.choice(['float64', 'float64', 'float32'])))
+        for lu, wu, gu, wdt in combos:
+            ops, expr = build(lu, wu, gu, wdt)
+            groups.append({'id': len(groups), 'kname': kname, 'operands': ops, 'expr': expr,
+                           'variant': {'length': lu[0], 'wavelength': wu[0], 'gravity': gu[0], 'wavelength_dtype': wdt}})
+
+    def wl_op(wu, wdt):
+        return {'values': [float(w / wu[1]).hex() for w in wls], 'unit': wu[0], 'dtype': wdt, 'dim': 'x'}
+
+    for key in ('two_theta', 'phi'):
+        if tilt == 0.0 or key == 'two_theta':
+            variants('scattering_angles_with_gravity.' + key, lambda lu, wu, gu, wdt, key=key: (
+                {'incident_beam': _vec(b1, lu), 'scattered_beam': _vec(b2s, lu, 'x'), 'wavelength': wl_op(wu, wdt), 'gravity': _vec(g, gu)},
+                {'call': BL + 'scattering_angles_with_gravity', 'get': key,
+                 'args': {k: '$' + k for k in ('incident_beam', 'scattered_beam', 'wavelength', 'gravity')}}))
+    if tilt == 0.0:
+        variants('scattering_angle_in_yz_plane', lambda lu, wu, gu, wdt: (
+            {'incident_beam': _vec(b1, lu), 'scattered_beam': _vec(b2s, lu, 'x'), 'wavelength': wl_op(wu, wdt), 'gravity': _vec(g, gu)},
+            {'call': BL + 'scattering_angle_in_yz_plane',
+             'args': {k: '$' + k for k in ('incident_beam', 'scattered_beam', 'wavelength', 'gravity')}}))
+    variants('two_theta', lambda lu, wu, gu, wdt: (
+        {'incident_beam': _vec(b1, lu), 'scattered_beam': _vec(b2s, rng.choice(LEN_U), 'x')},
+        {'call': BL + 'two_theta', 'args': {'incident_beam': '$incident_beam', 'scattered_beam': '$scattered_beam'}}))
+    for kname, args in (('L1', ['source_position', 'sample_position']), ('L2', ['position', 'sample_position']),
+                        ('total_straight_beam_length_no_scatter', ['source_position', 'position'])):
+        def build(lu, wu, gu, wdt, args=args, kname=kname):
+            ops = {}
+            for a in args:
+                si = {'source_position': src, 'sample_position': smp, 'position': poss}[a]
+                ops[a] = _vec(si, lu, 'x' if a == 'position' else None)
+            return ops, {'call': BL + kname, 'args': {a: '$' + a for a in args}}
+        variants(kname, build)
+    return groups
+
+
+def geometry_equivariance(ctx, rng):
+    """returns the number of evaluated variants; reports kernels whose physical result or output unit depends on
+    the units of the operands (the repeat / in-place-update checks of the harness run on every variant as well)"""
+    from fractions import Fraction
+    groups = geometry_groups(rng, 6 if ctx.tier == 'quick' else 40)
+    res = ctx.run_impl('kernels_impl.py', {'groups': [{k: g[k] for k in ('id', 'expr', 'operands')} for g in groups]}, timeout=3000)
+    by_kernel = {}
+    for g, r in zip(groups, res['groups']):
+        d = {'kernel': g['kname'], 'variant': g['variant']}
+        if 'result' not in r:
+            d['error'] = r.get('error') or r.get('build_error')
+            by_kernel.setdefault(g['kname'], []).append((None, d, False))
+            continue
+        rr = r['result']
+        mult = Fraction(int(rr['unit']['mult'][0]), int(rr['unit']['mult'][1]))
+        vals = [float(Fraction(int(v[0]), int(v[1])) * mult) if not isinstance(v, str) else v for v in rr['values']]
+        d.update({'values_si': vals, 'unit': rr['unit']['name'], 'dtype': rr['dtype']})
+        by_kernel.setdefault(g['kname'], []).append((vals, d, g['variant']['wavelength_dtype'] == 'float32'))
+    n = 0
+    for kname, lst in by_kernel.items():
+        ref = next((x for x in lst if x[0] is not None and not x[2]), None)
+        for vals, d, is32 in lst:
+            n += 1
+            if ref is None:
+                continue
+            if vals is None:
+                ctx.violation(f'{kname}:geometry-refused', f'{kname} refuses operands in compatible units ({d.get("error")}) that it accepts in other units: {d}',
+                              {'case': d, 'reference': ref[1]})
+                continue
+            angle = not kname.startswith(('L1', 'L2', 'total'))
+            tol = (2e-6 if is32 else 1e-12)
+            bad = any(isinstance(a, str) != isinstance(b, str) or
+                      (not isinstance(a, str) and abs(a - b) > tol * (1.0 if angle else max(abs(b), 1e-300)))
+                      for a, b in zip(vals, ref[0]))
+            if bad or len(vals) != len(ref[0]):
+                ctx.violation(f'{kname}:geometry-equivariance',
+                              f'{kname}: the physical result depends on the units of the operands: {vals} ({d["variant"]}) vs {ref[0]} ({ref[1]["variant"]})',
+                              {'case': d, 'reference': ref[1]})
+            if angle and d['unit'] != 'rad':
+                ctx.violation(f'{kname}:geometry-output-unit', f'{kname}: output unit {d["unit"]} is not rad: {d}', {'case': d})
+    return n
 
 
 DATA_OPERANDS = {
@@ -242,6 +351,8 @@ def search(ctx, broken):
     float32 (float64 otherwise) and the output unit is the documented one, over a sample of the grid"""
     from fractions import Fraction
     rng = random.Random(ctx.seed + 7)
+    n0 = len(ctx.violations)
+    geometry_equivariance(ctx, rng)
     groups = []
     for kname in DATA_OPERANDS:
         allc = list(grid(kname))
@@ -267,6 +378,7 @@ def search(ctx, broken):
             if abs(mult - DOC_UNIT[k]) > 1e-12 * DOC_UNIT[k]:
                 ctx.violation(f'{k}:output-unit', f'{k}: output unit {d["result_unit"]} is not the documented one: {d}', d)
                 found.append(d)
+    found += [v.key for v in ctx.violations[n0:] if v.found_input and v.key not in found]
     return found
 
 
